@@ -23,6 +23,7 @@ import JsonV.Oracle.Tree
 import JsonV.Oracle.Dup
 import JsonV.Oracle.Iso
 import JsonV.Oracle.Depth
+import JsonV.Oracle.Flush
 
 open JsonV.Oracle
 
@@ -48,6 +49,7 @@ def dispatch (line : String) : String :=
   | "dup" :: op :: args => Dup.handle op args
   | "iso" :: op :: args => Iso.handle op args
   | "depth" :: op :: args => Depth.handle op args
+  | "flush" :: op :: args => Flush.handle op args
   | "ping" :: _ => "pong"
   | _ => "ERR unknown-family"
 
